@@ -310,6 +310,8 @@ def check(ctx: Ctx) -> None:
         b["leaky"] = b["hi"]; b["clamp"] = b["hi"]                   # expect the upper bound where the mean is documented
     replay_clamp(probe, bad)
     ctx.selftest("an expected inverted-bounds value of the wrong mode is rejected", len(probe.violations) > 0)
+    from checks import suite_oracles
+    suite_oracles.suite(ctx, "clamp")     # every clamp / leaky_clamp call of the repository's own tests against the documented cases
     ctx.traces_validated = len(rc.records) + len(rw.records)
     ctx.exhaustive = True
     ctx.rule = ("every lattice case of Clamp.tla (7 inputs x 5x5 bounds incl. absent/inverted/tied x 4 slopes x 2 modes) and WW.tla (band, exact width tuples, "
